@@ -50,6 +50,7 @@ func (c08) Gen(tier string, seed int64) []fw.Unit {
 		us = append(us, fw.U("c08.random", nil, "random", r.Int63(), 500))
 	}
 	us = append(us, fw.U("c08.hostile", nil, "hostile", r.Int63()))
+	us = append(us, fw.U("c08.long", nil, "very-long", r.Int63()))
 	return us
 }
 
@@ -60,6 +61,9 @@ func codabarCheck(c *fw.Ctx, s string) {
 	req := Req{Fam: "codabar", S: []byte(s), Scheme: -1}
 	inner := req.String()
 	c.Step(func() string { return inner })
+	if c.Res().Evals%11 == 0 {
+		poison("codabar", false)
+	}
 	o := req.call()
 	valid := codabarRule.MatchString(s)
 	if !wellFormed(c, "codabar.Encode", inner, &o) {
@@ -105,6 +109,9 @@ func twoOfFiveCheck(c *fw.Ctx, s string, interleaved bool) {
 	req := Req{Fam: "2of5", S: []byte(s), I: []int64{il}, Scheme: -1}
 	inner := req.String()
 	c.Step(func() string { return inner })
+	if c.Res().Evals%5 == 0 {
+		poison("2of5", false)
+	}
 	o := req.call()
 	digits := allDigits(s) && len(s) > 0
 	valid := digits && (!interleaved || len(s)%2 == 0)
@@ -253,6 +260,23 @@ func (p c08) Exec(c *fw.Ctx, u *fw.Unit) {
 				twoOfFiveCheck(c, string(randBytes(r, 1+r.Intn(60), digitsAB)), true)
 			default:
 				addCheckSumCheck(c, string(randBytes(r, 1+r.Intn(40), digitsAB)))
+			}
+		}
+	case "c08.long":
+		r := rngFor(u.Int(0), "c08long")
+		for _, n := range []int{61, 100, 127, 128, 129, 254, 255, 256, 257, 258, 300, 511, 512, 513, 1000, 2000, 4100, 8200} {
+			for _, ab := range []string{"0123456789-$:/.+", ":/.+", "0", "9", "-$"} {
+				s := []byte{pick(r, []byte("ABCD"))}
+				s = append(s, randBytes(r, n, []byte(ab))...)
+				s = append(s, pick(r, []byte("ABCD")))
+				codabarCheck(c, string(s))
+			}
+			for _, ab := range []string{"0123456789", "9", "0", "19"} {
+				d := string(randBytes(r, n+n%2, []byte(ab)))
+				twoOfFiveCheck(c, d, false)
+				twoOfFiveCheck(c, d, true)
+				addCheckSumCheck(c, d)
+				addCheckSumCheck(c, d[1:])
 			}
 		}
 	case "c08.hostile":
